@@ -28,6 +28,8 @@ def mutants(prog):
         ]
     I = "ImageBatch._torch_function_grid"
     specs += [
+        ("FlowFields fallback keeps the batch's grids", DF, "FlowFields._make_instance", "return ImageBatch(data, grid)", "return ImageBatch(data, self._grid)", "T19.index"),
+        ("ImageBatch accepts surplus grids", DI, "ImageBatch.grid_", "elif len(arg) != shape[0]:", "elif len(arg) < shape[0]:", "T19.index"),
         ("cat keeps first grids", DI, I, "return [g for grid in grids for g in grid]", "return grids[0]", "T19."),
         ("split by size step", DI, I, "split_grids.append(grids[start:start + split_size_or_sections])", "split_grids.append(grids[:split_size_or_sections])", "T19."),
         ("split sizes offset", DI, I, "split_grids.append(grids[start:start + num])\n                    start += num\n            return split_grids\n        if func in (torch.split_with_sizes", "split_grids.append(grids[start:start + num])\n            return split_grids\n        if func in (torch.split_with_sizes", "T19."),
